@@ -51,6 +51,8 @@ type World struct {
 	QuiesceStarted bool
 	cfg     RunSpec
 	linkHook func(l *Link)
+	// PeriodicTraffic: the scenario has traffic that never ceases (health checks); settle periods are not extended
+	PeriodicTraffic bool
 	AllClosed bool
 	seenListed map[string]bool
 	corruptID   uint32
@@ -109,11 +111,23 @@ type memLogger struct {
 	fields tchannel.LogFields
 	counts *map[string]int
 	msgs   *map[string]int
+	n      *Node
 }
 
 func (l *memLogger) Enabled(level tchannel.LogLevel) bool { return level >= tchannel.LogLevelInfo }
 func (l *memLogger) log(lv, msg string) {
 	(*l.counts)[lv]++
+	if lv == "I" && l.n != nil && msg == "Could not send error frame on closed connection." {
+		// the library decided not to answer this id: its connection object is already in the
+		// closed state (remembered for attribution of unanswered requests)
+		for _, f := range l.fields {
+			if f.Key == "id" {
+				if id, ok := f.Value.(uint32); ok {
+					l.n.ErrOnClosedConn[id]++
+				}
+			}
+		}
+	}
 	if lv != "I" && l.msgs != nil {
 		(*l.msgs)[msg]++
 	}
@@ -142,7 +156,7 @@ func (l *memLogger) WithFields(fs ...tchannel.LogField) tchannel.Logger {
 	nf := make(tchannel.LogFields, 0, len(l.fields)+len(fs))
 	nf = append(nf, l.fields...)
 	nf = append(nf, fs...)
-	return &memLogger{w: l.w, node: l.node, fields: nf, counts: l.counts, msgs: l.msgs}
+	return &memLogger{w: l.w, node: l.node, fields: nf, counts: l.counts, msgs: l.msgs, n: l.n}
 }
 
 // ---- tracking frame pool (C12) ----
@@ -279,6 +293,9 @@ type Node struct {
 	Pool     *TrackPool
 	LogCount map[string]int
 	LogMsgs  map[string]int // warn/error messages seen
+	// ErrOnClosedConn: message ids for which the library logged that it could not send an error
+	// frame because the connection was already closed
+	ErrOnClosedConn map[uint32]int
 	Opts     NodeOpts
 	States   []tchannel.ChannelState
 	closeCalledEv, closeReturnedEv int64
@@ -288,7 +305,7 @@ type Node struct {
 }
 
 func (w *World) addNode(o NodeOpts) *Node {
-	n := &Node{W: w, Name: o.Name, Host: o.Host, Service: o.Service, Opts: o, LogCount: map[string]int{}, LogMsgs: map[string]int{}}
+	n := &Node{W: w, Name: o.Name, Host: o.Host, Service: o.Service, Opts: o, LogCount: map[string]int{}, LogMsgs: map[string]int{}, ErrOnClosedConn: map[uint32]int{}}
 	n.Pool = newTrackPool(w, o.Name)
 	n.Pool.PayCap = o.PayCap
 	n.Pool.Reuse = o.PoolReuse
@@ -298,7 +315,7 @@ func (w *World) addNode(o NodeOpts) *Node {
 	opts := &tchannel.ChannelOptions{
 		ProcessName:              o.Name + "-proc",
 		DefaultConnectionOptions: co,
-		Logger:                   &memLogger{w: w, node: o.Name, counts: &n.LogCount, msgs: &n.LogMsgs},
+		Logger:                   &memLogger{w: w, node: o.Name, counts: &n.LogCount, msgs: &n.LogMsgs, n: n},
 		RelayHost:                o.Relay,
 		RelayMaxTimeout:          o.RelayMaxTimeout,
 		RelayMaxTombs:            o.RelayMaxTombs,
